@@ -11,8 +11,22 @@ import random
 import signal
 from pyvc.run import task
 
-SEEDS = ['simple_gcc.elf.mips', 'arm_reloc_unrelocated.o', 'compressed_32.o', 'obj_stabs.elf', 'note_after_gnu_property/main.elf',
-         'section_link_to_self.elf', 'trailing_null_dies.elf']
+SEEDS = ['simple_gcc.elf.mips', 'arm_reloc_unrelocated.o', 'compressed_32.o', 'lib_versioned64.so.1.elf', 'obj_stabs.elf',
+         'note_after_gnu_property/main.elf', 'section_link_to_self.elf', 'trailing_null_dies.elf']
+RECORD_TYPES = ('SHT_DYNAMIC', 'SHT_NOTE', 'SHT_HASH', 'SHT_GNU_HASH', 'SHT_GNU_verdef', 'SHT_GNU_verneed', 'SHT_GNU_versym')
+
+
+def record_regions(seed):
+    """(label, start, length) of the record regions the property's quantifier names: section-header and program-header
+    tables, and the first 64 bytes of every dynamic, note, hash and version section (located on the intact seed)"""
+    from elftools.elf.elffile import ELFFile
+    ef = ELFFile(io.BytesIO(seed))
+    out = [('section header table', ef['e_shoff'], ef['e_shnum'] * ef['e_shentsize']),
+           ('program header table', ef['e_phoff'], ef['e_phnum'] * ef['e_phentsize'])]
+    for sec in ef.iter_sections():
+        if sec['sh_type'] in RECORD_TYPES:
+            out.append(('%s records' % sec.name, sec['sh_offset'], min(64, sec['sh_size'])))
+    return [(l, a, n) for (l, a, n) in out if n > 0 and a + n <= len(seed)]
 
 
 def _seed_dir():
@@ -108,6 +122,20 @@ def faults(seed, rng, tier):
             d = bytearray(seed)
             d[pos] = f(d[pos])
             yield 'byte %d := %s' % (pos, how), bytes(d)
+    try:
+        regions = record_regions(seed)
+    except Exception:
+        regions = []
+    k = 0
+    for label, start, length in regions:
+        for pos in range(start, start + length):
+            for how, f in (('0x00', lambda b: 0), ('0xff', lambda b: 0xff), ('+1', lambda b: (b + 1) & 0xff), ('^0x80', lambda b: b ^ 0x80)):
+                k += 1
+                if tier == 'quick' and k % 5:
+                    continue
+                d = bytearray(seed)
+                d[pos] = f(d[pos])
+                yield '%s: byte %d := %s' % (label, pos, how), bytes(d)
     for i in range(40 if tier == 'quick' else 1500):
         d = bytearray(seed)
         for _ in range(rng.choice([1, 2, 4, 8])):
@@ -123,13 +151,14 @@ def open_fuzz(tier, seed):
     rng = random.Random(seed * 17 + 19)
     d = _seed_dir()
     obs = []
-    for name in SEEDS if tier != 'quick' else SEEDS[:4]:
+    for name in SEEDS if tier != 'quick' else SEEDS[:4]:       # quick: the first four seeds (one of them carries version sections)
         data = open(os.path.join(d, name), 'rb').read()
         bad_open = bad_term = None
         cases = 0
         for what, mutated in faults(data, rng, tier):
             cases += 1
-            st, detail, term = try_open(mutated)
+            # (after the first non-terminating case of a seed the remaining ones get a short limit: one witness is enough)
+            st, detail, term = try_open(mutated, 30.0 if bad_term is None else 2.0)
             if st in ('other', 'timeout') and bad_open is None:
                 bad_open = dict(confirmed=True, how='ELFFile(io.BytesIO(mutated seed))', input='%s: %s (sha of seed file in /repo/test)' % (name, what),
                                 observed=detail, expected='success or ELFError')
@@ -142,7 +171,8 @@ def open_fuzz(tier, seed):
                             detail=bad and bad['observed'], native=bad))
     return dict(obligations=obs, assumptions=[
         'BOUNDED: fault classes of the property applied to %d seed files (truncations, header byte substitutions, random corruptions, '
-        'random bytes); 5 s wall-clock limit per case stands for "terminates"; peak allocation is not measured' % len(SEEDS)],
+        'random bytes, byte substitutions in the section-header, program-header, dynamic, note, hash and version records); a limit of 30 s of CPU time '
+        'per case stands for "terminates in time bounded by a small multiple of the file size" (the seeds are a few KiB); peak allocation is not measured' % len(SEEDS)],
         functions=[dict(function='elftools/elf/elffile.py:ELFFile.__init__ + enumeration battery (sections, segments, symbols, dynamic, notes, '
                                  'versions, hash)', kind='bounded fault injection')], exhaustive=False)
 
